@@ -64,7 +64,9 @@ class FetcherEval:
             requests.append(args[0] if args else kwargs.get("pdu"))
             return self.response(bindings)
 
-        return MiniEval(self.ctx, externals={self.send_key: send_model, "puresnmp.util:get_request_id": lambda a, k: 4242}, max_steps=80000)
+        rid = self.ctx.u.maybe_func("puresnmp.util:get_request_id")  # found wherever it lives today (it may have moved to another module)
+        externals = {self.send_key: send_model, (rid.key if rid is not None else "puresnmp.util:get_request_id"): lambda a, k: 4242}
+        return MiniEval(self.ctx, externals=externals, max_steps=80000)
 
     def me(self) -> Instance:
         return Instance(self.client, [], {})
@@ -280,6 +282,8 @@ class FetcherEval:
                 requests: List[Any] = []
                 ev = self.evaluator(b, requests)
                 kind, fetcher = self.call(ev, factory, [self.me(), size])
+                if kind == "return" and isinstance(fetcher, Instance) and self.ctx.r.method(fetcher.cls, "__call__") is not None:
+                    fetcher = FuncRef(self.ctx.r.method(fetcher.cls, "__call__"), bound_self=fetcher)  # a callable object
                 if kind != "return" or not isinstance(fetcher, FuncRef):
                     self.uneval["bulk fetcher"] = f"factory: {kind} {fetcher!r}"
                     return None
